@@ -109,6 +109,56 @@ def fmt_vec(p):
     return ' '.join(repr(float(x)) if float(x) != int(x) else str(int(x)) for x in p)
 
 
+def fold_table(strings):
+    """Per-character case fold of the non-ASCII characters of `strings` as [[cp, folded cp]] (characters whose
+    str.casefold() is not a single character are left out: they fold to themselves in the model)."""
+    out = {}
+    for st in strings:
+        for c in st:
+            if ord(c) > 127 and c not in out:
+                f = c.casefold()
+                if len(f) == 1:
+                    out[c] = f
+    return [[ord(c), ord(f)] for c, f in sorted(out.items())]
+
+
+def _lw(c):
+    if 'A' <= c <= 'Z':
+        return c.lower()
+    if ord(c) > 127:
+        f = c.casefold()
+        return f if len(f) == 1 else c
+    return c
+
+
+_FOLD_OK = {}
+
+
+def fold_model_applies(key_chars, text_chars):
+    """The model compares a (casefolded) key character a with a text character b as a == lw(b), folds matched names
+    with map lw and classifies identifier characters through lw. Check on Python itself (re.IGNORECASE / str.casefold)
+    that this is what happens for the characters at hand; otherwise the case is outside the table model."""
+    for b in text_chars:
+        if b in _FOLD_OK:
+            ok = _FOLD_OK[b]
+        else:
+            l = _lw(b)
+            start = ('a' <= l <= 'z') or l == '_'
+            ok = (len(b.casefold()) == 1 and b.casefold() == l
+                  and bool(re.fullmatch('[a-z_]', b, re.I)) == start
+                  and bool(re.fullmatch('[a-z0-9_]', b, re.I)) == (start or '0' <= b <= '9'))
+            _FOLD_OK[b] = ok
+        if not ok:
+            return False
+        for a in key_chars:
+            k = (a, b)
+            if k not in _FOLD_OK:
+                _FOLD_OK[k] = bool(re.fullmatch(re.escape(a), b, re.I)) == (a == _lw(b))
+            if not _FOLD_OK[k]:
+                return False
+    return True
+
+
 class FoldDict(dict):
     """Snapshot of an entity's keys with the entity's own case-insensitive lookup."""
 
